@@ -292,7 +292,7 @@ func main() {
 					return true
 				}
 				sel, ok := c.Fun.(*ast.SelectorExpr)
-				if !ok || !callSet[sel.Sel.Name] {
+				if !ok || !(callSet[sel.Sel.Name] || callSet[curFunc+"."+sel.Sel.Name]) {
 					return true
 				}
 				if id, ok := sel.X.(*ast.Ident); ok && id.Name == "vsched" {
